@@ -807,7 +807,7 @@ func optsFor(prop, tier string) (core.GenOpts, int) {
 	case "C05":
 		o.Handlers = 1.0
 		o.Detach = 0.25
-		o.Motifs = []string{"after", "after", "random", "sparse", "multi", "autos"}
+		o.Motifs = []string{"after", "after", "random", "sparse", "multi", "autos", "wide"}
 	case "C06":
 		o.Subs, o.Handlers, o.Nested = 1.0, 0.6, 0.2
 		o.Motifs = []string{"sparse", "multi", "random", "autos", "sparse", "multi"}
